@@ -349,6 +349,20 @@ def enumerate_ops(run, seed, seeds):
                 yield ("json2", [i1, "del", i2, "big"])
                 if not quick:
                     yield ("json2", [i1, "del", i2, "neg"])
+    # the whole file, or one line-aligned block of it, many times over: the bound is LINEAR in the
+    # input, so work that grows with the square of the number of records shows once files get long
+    # (an ASCII STL of 16000 equally named solids took ten times the bound)
+    if n >= 16 and n <= 4096:
+        reps = (400,) if quick else (2000, 16000)
+        nl = [i + 1 for i, ch in enumerate(data[:2048]) if ch == 0x0A]
+        blocks = [(0, n)]
+        if len(nl) >= 3:
+            blocks.append((nl[0], nl[-1]))
+            blocks.append((nl[len(nl) // 2 - 1], nl[len(nl) // 2]))
+        for a, b in blocks:
+            for k in reps:
+                if (b - a) * k <= (1 << 21):
+                    yield ("repeat", [a, b, k])
     # chunk delete / duplicate / swap
     nchunk = 12 if quick else 400
     for _ in range(nchunk):
@@ -418,7 +432,7 @@ def run_children(run, seeds, cases, work):
     # cut short by the budget on a loaded machine is still a uniform sample of the enumeration
     # phase 1: valid files and size-field / token faults (where allocation and seek arithmetic
     # go wrong); phase 2: everything else.  A budget cut removes part of phase 2 only.
-    PRIO = ("valid", "u32", "u16", "u32xor", "u32add", "token", "json", "json2", "tokcopy", "ref", "zipinner")
+    PRIO = ("valid", "u32", "u16", "u32xor", "u32add", "token", "json", "json2", "tokcopy", "ref", "zipinner", "repeat")
     prio = [c for c in cases if c[2] in PRIO]
     rest = [c for c in cases if c[2] not in PRIO]
     batches = []
@@ -560,7 +574,7 @@ def run_children(run, seeds, cases, work):
 def op_class(op, args=None):
     if op == "zipinner" and args:
         return "zip_member:" + op_class(args[1])
-    return {"tokcopy": "id_copy", "json": "json", "json2": "json_pair", "ref": "asset_ref",
+    return {"repeat": "repeat", "tokcopy": "id_copy", "json": "json", "json2": "json_pair", "ref": "asset_ref",
             "sub": "byte", "xor": "byte", "u32": "field", "u16": "field", "u32xor": "field", "u32add": "field", "token": "token",
             "delete": "chunk", "dup": "chunk", "swap": "chunk", "noise": "noise", "multi": "multi",
             "raw": "noise"}.get(op, op)
